@@ -247,7 +247,7 @@ Section RoundTrip.
     map snd vts = map row_line (rows_of s vts) /\
     Forall (fun vt => record_text sem (fst vt) = Ok (snd vt)) vts /\
     Forall2 (fun r v => cells_of_rec (mcols r) = cells_of_rec (mcols v) /\
-                        rlist (mcols v) = rlist (canon_rec (cells_of_rec (mcols v)))) rs (map fst vts) /\
+                        map (@slot_view C W) (rlist (mcols v)) = map (@slot_view C W) (rlist (canon_rec (cells_of_rec (mcols v))))) rs (map fst vts) /\
     match rs with r1 :: _ => record_names r1 = s_names s | [] => True end.
   Proof.
     intros rs vts Ht ND HF. induction HF as [|r [v t] rs vts Ha HF IH]; intros Hex.
@@ -325,7 +325,7 @@ Section RoundTrip.
                            record_text sem r' = record_text sem v)
               (run_recs (rt_read rt)) (accepted_records w1) /\
       Forall2 (fun r v => cells_of_rec (mcols r) = cells_of_rec (mcols v) /\
-                          rlist (mcols v) = rlist (canon_rec (cells_of_rec (mcols v))))
+                          map (@slot_view C W) (rlist (mcols v)) = map (@slot_view C W) (rlist (canon_rec (cells_of_rec (mcols v)))))
               rs (accepted_records w1) /\
       rt_second rt = Some w2 /\ wr_clean w2 = true /\ wr_entries w2 = wr_entries w1.
   Proof.
